@@ -21,6 +21,20 @@ Theorem memo_alias_refuted :
   alias_free2 k2_a k2_b = false.
 Proof. vm_compute. repeat split; discriminate. Qed.
 
+(* K2 WITH options, inside ONE DeepHash call: {2: [], 'a': 2} vs {'a': 2, 2.0: []} under ignore_string_case +
+   significant_digits=3.  In the second dict the VALUE 2 is hashed first, the KEY 2.0 is looked up by == and gets
+   its hash: the two DeepHash results are equal (deephash), although on alias-free tables they differ (hash_pure);
+   key cleaning renders the keys 'int:2.000' / 'float:2.000': the diff is not empty. *)
+Definition Fcs3 : opts := mkOpts true false false (Some 3%N) None [].
+Definition k2o_a : value := VDict [(AInt 2, VList []); (AStr (s2p "a"), VAtom (AInt 2))].
+Definition k2o_b : value := VDict [(AStr (s2p "a"), VAtom (AInt 2)); (AHalf 4, VList [])].
+Theorem memo_alias_options_refuted :
+  pystr_eqb (deephash hexhash (hoptsF Fcs3 true false) k2o_a) (deephash hexhash (hoptsF Fcs3 true false) k2o_b) = true /\
+  hash_eqF hexhash cfg_def Fcs3 false k2o_a k2o_b = false /\
+  verdictF hexhash no_ud cfg_def Fcs3 false no_pairs k2o_a k2o_b = DNonEmpty /\
+  wf k2o_a = true /\ wf k2o_b = true /\ alias_free k2o_b = false.
+Proof. vm_compute. repeat split; reflexivity. Qed.
+
 (* the exact K9 guard: True facing 2 is INSIDE the theorem (both engines: different), in both orders
    and through a list; 0.5 facing False at 0 digits is outside only in that order *)
 Definition Fn0 : opts := mkOpts false false true (Some 0%N) None [].
